@@ -113,7 +113,11 @@ type sink struct {
 	max   int
 	err   error
 	calls int // Transport.Read calls that returned
-	done  chan struct{}
+	// every slice Transport.Read returned, kept WITHOUT copying, and a copy taken at read time: what a
+	// read returned must stay what it was
+	kept [][]byte
+	ref  [][]byte
+	done chan struct{}
 }
 
 func (s *sink) returned() int {
@@ -157,6 +161,39 @@ func (s *sink) add(b []byte) {
 	s.mu.Unlock()
 }
 
+// addOwned records a chunk returned by Transport.Read: like add, and the slice itself is retained.
+func (s *sink) addOwned(b []byte) {
+	s.add(b)
+	if len(b) == 0 {
+		return
+	}
+	s.mu.Lock()
+	s.kept = append(s.kept, b)
+	s.ref = append(s.ref, append([]byte(nil), b...))
+	s.mu.Unlock()
+}
+
+// changed compares every retained slice with the copy taken when it was returned ("" = all intact).
+func (s *sink) changed() string {
+	s.mu.Lock()
+	defer s.mu.Unlock()
+	for i := range s.kept {
+		if !bytes.Equal(s.kept[i], s.ref[i]) {
+			j := 0
+			for j < len(s.ref[i]) && s.kept[i][j] == s.ref[i][j] {
+				j++
+			}
+			hi := j + 12
+			if hi > len(s.ref[i]) {
+				hi = len(s.ref[i])
+			}
+			return fmt.Sprintf("the %d-byte slice returned by read #%d of %d was %x… at offset %d when it was returned and is %x… now (after later reads)",
+				len(s.ref[i]), i+1, len(s.kept), s.ref[i][j:hi], j, s.kept[i][j:hi])
+		}
+	}
+	return ""
+}
+
 func (s *sink) len() int {
 	s.mu.Lock()
 	defer s.mu.Unlock()
@@ -178,7 +215,7 @@ func clientReader(l *link, s *sink) {
 		s.calls++
 		s.mu.Unlock()
 		if len(b) > 0 || err == nil {
-			s.add(b)
+			s.addOwned(b)
 		}
 		if err != nil {
 			s.mu.Lock()
@@ -480,6 +517,9 @@ func runXfer(d Desc) mon.Result {
 	if r := judge("down", cs, wantDown); r != nil {
 		return *r
 	}
+	if c := cs.changed(); c != "" {
+		return bad("delivered-chunk-changed-after-return", "%s", c)
+	}
 	// the reader is now blocked in Transport.Read with nothing pending: Close(true) must release it
 	time.Sleep(2 * time.Millisecond)
 	tc := time.Now()
@@ -489,7 +529,9 @@ func runXfer(d Desc) mon.Result {
 	released := cs.waitReturn(before, 5*time.Second)
 	if !released || !closeReturned {
 		if mon.LoadedSince(tc) {
-			return mon.Result{Verdict: mon.Inconclusive, Detail: "unblock after Close(true) not observed within 5 s under load"}
+			if stuck, concl := l.stillStuck(cs, before, true); !stuck {
+				return mon.Result{Verdict: mon.Inconclusive, Detail: fmt.Sprintf("unblock after Close(true) not observed within 5 s under load (came back later: %v)", concl)}
+			}
 		}
 		return bad("unblock:close", "after the transfer, Close(true) returned=%v; the goroutine blocked in Transport.Read returned=%v within 5 s", closeReturned, released)
 	}
